@@ -54,8 +54,8 @@ package ice
 //@   loop 1 invariant C04 stays-alive-and-keeps-its-selector: (old(a.connectionState) != ConnectionStateFailed ==> a.connectionState != ConnectionStateFailed) && a.selector == old(a.selector)
 //@   ensures C04 stays-alive-and-keeps-its-selector: (old(a.connectionState) != ConnectionStateFailed ==> a.connectionState != ConnectionStateFailed) && a.selector == old(a.selector)
 //@   ensures C04 a-selection-still-exists-only-while-alive: a.getSelectedPair() != nil ==> a.connectionState != ConnectionStateFailed
-//@   requires C03 selected-pair-is-valid: istype(a.selectedPair, *CandidatePair) && a.selectedPair.payload != nil ==> cast(a.selectedPair.payload, *CandidatePair).state == CandidatePairStateSucceeded || a.userBindingRequestHandler != nil
-//@   loop 1 invariant C03 selected-pair-stays-valid: istype(a.selectedPair, *CandidatePair) && a.selectedPair.payload != nil ==> cast(a.selectedPair.payload, *CandidatePair).state == CandidatePairStateSucceeded || a.userBindingRequestHandler != nil
+//@   requires C03 selected-pair-is-valid: istype(a.selectedPair, *CandidatePair) && a.selectedPair.payload != nil ==> cast(a.selectedPair.payload, *CandidatePair).state == CandidatePairStateSucceeded
+//@   loop 1 invariant C03 selected-pair-stays-valid: istype(a.selectedPair, *CandidatePair) && a.selectedPair.payload != nil ==> cast(a.selectedPair.payload, *CandidatePair).state == CandidatePairStateSucceeded
 //@   requires C06 supersession-replaces-by-a-different-candidate: newRemote != oldRemote
 //@   loop 1 invariant C06 index-in-range: rangeindex + 1 <= len(a.checklist)
 //@   loop 1 invariant C06 list-header-stable: a.checklist == old(a.checklist) && a.pairsByID == old(a.pairsByID)
